@@ -31,7 +31,6 @@ RULE = (
 )
 ASSUMPTIONS = [
     "both renderings come from the same abstract statement list, so they have the same meaning by construction (sampled gfortran check of the transformed text)",
-    "indent <= 4 (a free-form file whose lines all start beyond column 5 is C14's subject)",
 ]
 
 ROLES = {"use", "call", "typeref", "extends", "member", "only", "alias", "bindtarget", "modproc", "visref", "decl", "usemod"}
@@ -164,7 +163,6 @@ def local_label(what, layout, new, o_use, key0):
 
 
 def check(ctx, prog, layout, scratch):
-    layout = dataclasses.replace(layout, indent=min(layout.indent, 4))
     base = fmodel.render(prog, fmodel.PLAIN)
     new = fmodel.render(prog, layout)
     fws.gfortran_sample(ctx, new, every=8)
@@ -227,7 +225,6 @@ def run(ctx):
 
     def case_of(v):
         prog, layout = v
-        layout = dataclasses.replace(layout, indent=min(layout.indent, 4))
         return {"plain": fmodel.render(prog, fmodel.PLAIN).files, "files": fmodel.render(prog, layout).files, "layout": features(layout)}
 
     ctx.hyp(st.tuples(fmodel.program_st(), fmodel.layout_st), oracle, max_examples=ctx.n(50, 1500), case_of=case_of,
